@@ -2167,6 +2167,13 @@ func ruleJRN5(w *World, r *Report) {
 				inv = p
 			}
 		}
+		if inv == nil { // by position: the last string parameter (index, source, target, relation, inverse relation)
+			for _, p := range fn.Params {
+				if isStringType(p.Type()) {
+					inv = p
+				}
+			}
+		}
 		// the journal write, or the call of a phase function that cannot return without it
 		helpers := w.extractedHelpers(fn)
 		isJournal := func(in ssa.Instruction) bool {
@@ -2325,7 +2332,7 @@ func ruleGRDfreshcfg(w *World, r *Report) {
 	r.Doc("GRD-freshcfg", "every Default…Config constructor of the module fills the map-typed fields of the value it returns with maps made inside the call (a map literal / make), never with a package-level map", 1)
 	n := 0
 	for _, fi := range w.ModuleFuncs() {
-		name := fi.Obj.Name()
+		name := canonName(fi.Obj)
 		if !strings.HasPrefix(name, "Default") || fi.Obj.Type().(*types.Signature).Recv() != nil {
 			continue
 		}
